@@ -136,10 +136,13 @@ def main(argv=None):
     kf = known_findings(pid)
     if mism:
         first = mism[0]
-        # an L1 disagreement with a direct reading as a property failure (e.g. a panic)
-        direct = prop.direct_failure(first[0], first[1], first[2], first[3])
-        if direct:
-            failures.append(direct)
+        # an L1 disagreement with a direct reading as a property failure (e.g. a panic): the first one among the
+        # disagreeing cases that has such a reading
+        for mm in mism[:2000]:
+            direct = prop.direct_failure(mm[0], mm[1], mm[2], mm[3])
+            if direct:
+                failures.append(direct)
+                break
         # the correspondence is broken and no failing input explains it: a failure that is a listed known finding
         # explains nothing (it is there on the unchanged tree as well)
         if not any(not any(finding_matches(k, f) for k in kf) for f in failures):
